@@ -1,6 +1,7 @@
 package ed25519
 
 import (
+	"bytes"
 	"crypto"
 	stded "crypto/ed25519"
 	"crypto/sha512"
@@ -357,11 +358,16 @@ type hashedOpts struct{}
 func (hashedOpts) HashFunc() crypto.Hash { return crypto.SHA512 }
 
 func runSign(in M) (M, M) {
-	seed, msg := vBytes(in["seed"]), vBytes(in["msg"])
+	// seed and message live in the caller's buffers (reused from call to call, spare capacity behind them)
+	seed, msg := vBuf("ed25519 seed", in["seed"]), vBuf("ed25519 message", in["msg"])
 	out := M{}
 	var priv PrivateKey
 	var sig, sig2 []byte
 	out["panic"] = vCatch(func() {
+		// what happened before must not matter: a verification that fails early (R is not a point) precedes the signing
+		bad := make([]byte, SignatureSize)
+		bad[0] = 2
+		Verify(PublicKey(make([]byte, PublicKeySize)), msg, bad)
 		// every signature of a run goes through ONE reused private key buffer (keys overwritten in place):
 		// signing must depend on the key bytes only, not on the history of the buffer
 		copy(reuseBuf, NewKeyFromSeed(seed))
@@ -379,12 +385,22 @@ func runSign(in M) (M, M) {
 	if e1 != nil {
 		out["signer_err"] = e1.Error()
 	}
+	// the randomness source handed to the Signer must not matter (Ed25519 signing is deterministic): a source of
+	// constant bytes and an exhausted one; a deviating answer replaces the one reported
+	for _, rd := range []io.Reader{bytes.NewReader(bytes.Repeat([]byte{0xA7}, 256)), bytes.NewReader(nil)} {
+		sr, er := priv.Sign(rd, msg, crypto.Hash(0))
+		if er != nil {
+			out["signer_err"] = er.Error()
+		} else if !bytes.Equal(sr, s1) {
+			out["signer_sig"] = vInts(sr)
+		}
+	}
+	vOwnOrKeep("Sign result", sig)
 	accepted := []int{}
 	for h := 1; h < 24; h++ {
-		var hs []byte
 		var he error
-		vCatch(func() { hs, he = priv.Sign(nil, msg, crypto.Hash(h)) })
-		if he == nil || hs != nil {
+		pn := vCatch(func() { _, he = priv.Sign(nil, msg, crypto.Hash(h)) })
+		if he == nil && pn == "" { // refusing = an error (what accompanies it is not specified)
 			accepted = append(accepted, h)
 		}
 	}
@@ -445,6 +461,7 @@ func TestVerifDriver(t *testing.T) {
 		in = vNorm(in)
 		rec.i++
 		rec.count++
+		vPost(out)
 		b, err := json.Marshal(map[string]interface{}{"t": rec.t, "i": rec.i, "op": op, "in": in, "out": out, "facts": facts})
 		if err != nil {
 			panic(err)
@@ -453,6 +470,8 @@ func TestVerifDriver(t *testing.T) {
 		rec.w.WriteByte('\n')
 	}
 	runPar := func(ins []M) {
+		vConc = true
+		defer func() { vConc = false }()
 		// the same scenarios verified by 8 goroutines at once: every verdict must be the one the specification gives
 		type res struct{ in, out, facts M }
 		results := make([][]res, len(ins)) // the answers seen for input i (index i belongs to goroutine i%8)
